@@ -118,9 +118,172 @@ def get_namespace_handler_contract(world, obj, target, also=()):
         must_fail=lambda c: {'catchall-class:claims-no-prefix': c.eng.equal(c.ctx, c.result, tup(v1(c.pre.get(obj, 'namespace_handlers'), STAR), c.vals['args']))})
 
 
+# =========================================================================== _trigger_event
+from pyvc.dsl import entry_is, log_grew, drop_last_matches, seq_matches
+from pyvc.externals import meth
+
+TRIG = A('trigger_event')
+
+
+def all_targets(c, obj, names):
+    """The six targets of the statement, in order: (condition, callable, argument tuple it must receive)."""
+    h = c.pre.get(obj, 'handlers')
+    nh = c.pre.get(obj, 'namespace_handlers')
+    ev, ns, args = c.a.event, c.a.namespace, c.vals['args']
+    out = []
+    for cond, (hv, prefix) in event_targets(h, ns, ev, reserved(ev, names)):
+        out.append((cond, hv, prepend(prefix, args, 'tuple'), 'fn'))
+    for cond, (hv, prefix) in ns_targets(nh, ns):
+        out.append((cond, meth(hv, TRIG), prepend([ev] + prefix, args, 'tuple'), 'cls'))
+    return out
+
+
+def has_target(c, obj, names):
+    return z3.Or(*[t[0] for t in all_targets(c, obj, names)])
+
+
+TARGET_LABELS = ['ns-event', 'ns-catchall', 'catchall-ns-event', 'catchall-ns-catchall', 'ns-class', 'catchall-class']
+
+
+def trigger_event_contract(world, obj, target, names, internal, unhandled_result, also=()):
+    def guard(idx):
+        def when(c):
+            g, _ = first_match([(t[0], t) for t in all_targets(c, obj, names)])
+            return g[idx][0]
+        return when
+
+    def tgt(c, idx):
+        return all_targets(c, obj, names)[idx]
+
+    def one_call(idx, with_result):
+        def post(c):
+            _, fn, A_, _ = tgt(c, idx)
+            pre, post_ = c.pre.get('g', 'calls'), c.post.get('g', 'calls')
+            n = pre.c['len']
+            d = {'one-call': log_grew(pre, post_, 1), 'callee-and-args': entry_is(c, post_, n, fn=fn, args=A_)}
+            if with_result:
+                d['result-is-return-value'] = c.res_v() == post_.c['ret'][n]
+            return d
+        return post
+
+    def two_calls(idx, with_result):
+        def post(c):
+            _, fn, A_, _ = tgt(c, idx)
+            pre, post_ = c.pre.get('g', 'calls'), c.post.get('g', 'calls')
+            n = pre.c['len']
+            d = {'two-calls': log_grew(pre, post_, 2), 'first': entry_is(c, post_, n, fn=fn, args=A_),
+                 'second-callee': post_.c['fn'][n + 1] == fn,
+                 'second-args': drop_last_matches(c, post_.c['args#len'][n + 1], post_.c['args#arr'][n + 1], A_)}
+            if with_result:
+                d['result-is-return-value'] = c.res_v() == post_.c['ret'][n + 1]
+            return d
+        return post
+
+    cases = []
+    for idx, label in enumerate(TARGET_LABELS):
+        g = guard(idx)
+        cases.append(Case(label + '.returns', when=g, post=one_call(idx, True), group=label))
+        cases.append(Case(label + '.raises', when=g, kind='raise', exc='Exception', post=one_call(idx, False), group=label + '!'))
+        if idx in (0, 2):     # catch-all event handlers never receive the reserved 'disconnect' event
+            gd = (lambda g: (lambda c: z3.And(g(c), c.a.event == A('disconnect'))))(g)
+            cases.append(Case(label + '.legacy-disconnect.returns', when=gd, post=two_calls(idx, True), group=label))
+            cases.append(Case(label + '.legacy-disconnect.raises', when=gd, kind='raise', exc='Exception', post=two_calls(idx, False), group=label + '!'))
+
+    def none_when(c):
+        return z3.Not(has_target(c, obj, names))
+    cases.append(Case('no-target', when=none_when, result=lambda c: S(unhandled_result), update=lambda c: None))
+
+    # ---- what callers see: one abstract dispatch (g.disp), defined by the cases above
+    def disp_update(c):
+        r = smt.fresh('handler_ret', V)
+        c.ctx.assume(r != atom(worlds.NOT_HANDLED))
+        c._ret = r
+        log_append(c, 'g', 'disp', event=c.a.event, ns=c.a.namespace, args=c.vals['args'], ret=r)
+
+    summary = [
+        Case('dispatched', when=lambda c: has_target(c, obj, names), update=disp_update, result=lambda c: S(c._ret)),
+        Case('no-target', when=none_when, result=lambda c: S(unhandled_result), update=lambda c: None),
+    ]
+    for cls in ['TypeError', 'sio.ConnectionRefusedError', 'AppException']:
+        summary.append(Case('dispatched-raises-' + cls, when=lambda c: has_target(c, obj, names), kind='raise', exc=cls,
+                            update=disp_update,
+                            exc_fields=(lambda c: {'error_args': S(smt.fresh('error_args', V))}) if cls.endswith('RefusedError') else None))
+
+    return Contract(
+        target=target, schema=world, self_obj=obj, also=also,
+        params={'event': 'V', 'namespace': 'V', 'args': ('seq', 'tuple')},
+        requires=lambda c: domain(c, obj, names, internal),
+        cases=cases, summary=summary, modifies=[('g', 'calls'), ('g', 'disp')], props=['C13'],
+        abstraction='g.disp record (event, ns, args, ret) := the target responsible for (ns, event) by the C13 order was '
+                    'invoked once with prefix+args (a second time without the last argument for a legacy disconnect handler '
+                    'that raised TypeError) and returned ret, or raised',
+        must_fail=lambda c: {
+            'ns-catchall.returns:claims-unprefixed-args': entry_is(c, c.post.get('g', 'calls'), c.pre.get('g', 'calls').c['len'], args=c.vals['args']),
+            'no-target:claims-a-call': c.post.get('g', 'calls').c['len'] == c.pre.get('g', 'calls').c['len'] + 1,
+        })
+
+
+def ns_trigger_event_contract(world, target):
+    from pyvc.externals import hasattr_f
+    SELF = z3.Const('obj:nsobj', V)
+
+    def name_of(c):
+        ev = c.a.event
+        return smt.str_concat(A('on_'), z3.If(smt.truthy(ev), ev, A('')))
+
+    def has(c):
+        return hasattr_f(SELF, name_of(c))
+
+    def one(with_result):
+        def post(c):
+            pre, post_ = c.pre.get('g', 'calls'), c.post.get('g', 'calls')
+            n = pre.c['len']
+            d = {'one-call': log_grew(pre, post_, 1),
+                 'method-on_event-with-args': entry_is(c, post_, n, fn=meth(SELF, name_of(c)), args=c.vals['args'])}
+            if with_result:
+                d['result-is-return-value'] = c.res_v() == post_.c['ret'][n]
+            return d
+        return post
+
+    def two(with_result):
+        def post(c):
+            pre, post_ = c.pre.get('g', 'calls'), c.post.get('g', 'calls')
+            n = pre.c['len']
+            fn = meth(SELF, name_of(c))
+            d = {'two-calls': log_grew(pre, post_, 2), 'first': entry_is(c, post_, n, fn=fn, args=c.vals['args']),
+                 'second-callee': post_.c['fn'][n + 1] == fn,
+                 'second-args': drop_last_matches(c, post_.c['args#len'][n + 1], post_.c['args#arr'][n + 1], c.vals['args'])}
+            if with_result:
+                d['result-is-return-value'] = c.res_v() == post_.c['ret'][n + 1]
+            return d
+        return post
+    legacy = lambda c: z3.And(has(c), c.a.event == A('disconnect'))
+    cases = [
+        Case('on_event.returns', when=has, post=one(True), group='r'),
+        Case('on_event.raises', when=has, kind='raise', exc='Exception', post=one(False), group='x'),
+        Case('legacy-disconnect.returns', when=legacy, post=two(True), group='r'),
+        Case('legacy-disconnect.raises', when=legacy, kind='raise', exc='Exception', post=two(False), group='x'),
+        Case('no-method', when=lambda c: z3.Not(has(c)), result=lambda c: S(NONE), update=lambda c: None),
+    ]
+    return Contract(target=target, schema=world, self_obj='nsobj', params={'event': 'V', 'args': ('seq', 'tuple')},
+                    cases=cases, modifies=[('g', 'calls')], props=['C13'],
+                    must_fail=lambda c: {'no-method:claims-a-call': c.post.get('g', 'calls').c['len'] == c.pre.get('g', 'calls').c['len'] + 1})
+
+
 def register(reg):
+    from . import c17
+    for nscls, attr, tgt in c17.PAIRS:
+        reg.add(ns_trigger_event_contract(c17.ns_world(nscls, attr, tgt), '%s.%s.trigger_event' % nscls))
     reg.add(get_event_handler_contract(worlds.SERVER, 'server', 'base_server.BaseServer._get_event_handler', SERVER_RESERVED))
     reg.add(get_namespace_handler_contract(worlds.SERVER, 'server', 'base_server.BaseServer._get_namespace_handler'))
     reg.add(get_event_handler_contract(worlds.CLIENT, 'client', 'base_client.BaseClient._get_event_handler',
                                        CLIENT_RESERVED + CLIENT_INTERNAL))
     reg.add(get_namespace_handler_contract(worlds.CLIENT, 'client', 'base_client.BaseClient._get_namespace_handler'))
+    reg.add(trigger_event_contract(worlds.SERVER, 'server', 'server.Server._trigger_event', SERVER_RESERVED, [],
+                                   atom(worlds.NOT_HANDLED)))
+    reg.add(trigger_event_contract(worlds.ASYNC_SERVER, 'server', 'async_server.AsyncServer._trigger_event', SERVER_RESERVED, [],
+                                   atom(worlds.NOT_HANDLED)))
+    reg.add(trigger_event_contract(worlds.CLIENT, 'client', 'client.Client._trigger_event', CLIENT_RESERVED + CLIENT_INTERNAL,
+                                   [], NONE))
+    reg.add(trigger_event_contract(worlds.ASYNC_CLIENT, 'client', 'async_client.AsyncClient._trigger_event',
+                                   CLIENT_RESERVED + CLIENT_INTERNAL, [], NONE))
